@@ -104,6 +104,9 @@ type Def struct {
 	// GoName, when set, is emitted as the go.name annotation of the definition
 	// (typedef, enum, struct, union, exception): the generated Go type has this name.
 	GoName string
+	// Synthetic definitions are not rendered to IDL: they describe types the
+	// generator derives (function argument and result structs).
+	Synthetic bool
 }
 
 // GoIdent is the name of the generated Go type for d.
@@ -283,6 +286,9 @@ func (p *Program) Render() map[string]string {
 			fmt.Fprintf(&sb, "include \"%s\"\n", inc)
 		}
 		for _, d := range f.Defs {
+			if d.Synthetic {
+				continue
+			}
 			switch d.Kind {
 			case "typedef":
 				fmt.Fprintf(&sb, "typedef %s %s%s\n", d.Target.IDL(), d.Name, d.goNameAnnot())
